@@ -61,7 +61,7 @@ class MemoryStorage(AbstractStorage):
                 self._metadata[bucket_id]["hostname"] = hostname
             if name:
                 self._metadata[bucket_id]["name"] = name
-            if data:
+            if data is not None:
                 self._metadata[bucket_id]["data"] = data
         else:
             raise ValueError("Bucket did not exist, could not update")
